@@ -36,6 +36,8 @@ def std_registry(kind: str) -> List[Dict[str, Any]]:
         # a context-only method (no client parameters at all) and a class based view whose constructor raises
         # (a failure OUTSIDE any method body -> internal error)
         {'name': 'ctx_only', 'params': [P('ctx', ctx=True)], 'flavour': co, 'ctx': 'name'},
+        # async dispatcher only: a coroutine method behind a plain (non-async) decorator
+        {'name': 'wrapped', 'params': [P('a', default=None)], 'flavour': 'wcoro' if kind == 'async' else 'func', 'ctx': 'none'},
         {'name': 'bad.get', 'params': [P('a', default=None)], 'flavour': av, 'ctx': 'view', 'ctor_raises': True},
     ]
 
@@ -49,7 +51,9 @@ DEFAULT_BEHAVIOURS: Dict[str, Any] = {
 }
 
 EXC_NAMES = ['ValueError', 'KeyError', 'TypeError', 'AssertionError', 'RuntimeError', 'ZzCustomBoom', 'ZzLookup', 'OSError',
-             'ZeroDivisionError', 'AttributeError', 'StopIteration', 'UnicodeDecodeError', 'ValidationError', 'ValidationError', 'DeserializationError']
+             'ZeroDivisionError', 'AttributeError', 'StopIteration', 'UnicodeDecodeError', 'ValidationError', 'ValidationError', 'DeserializationError',
+             'TimeoutError', 'TimeoutError', 'NotImplementedError', 'RecursionError', 'ConnectionResetError', 'FileNotFoundError', 'IndexError',
+             'StopAsyncIteration', 'MemoryError', 'ArithmeticError', 'LookupError', 'PermissionError', 'BufferError', 'EOFError', 'ImportError', 'NameError']
 
 ERR_CODES = [0, 1, -1, 7, -32700, -32600, -32601, -32602, -32603, -32000, -32001, -32050, -32099, 2001, 2002, 2**31, -2**31, 10**30]
 
